@@ -223,6 +223,9 @@ fn func(out: &mut String, f: &Value, st: &mut Style) {
     if !s(&f["cc"]).is_empty() {
         attrs.push(format!("calling_convention({})", lit_str(s(&f["cc"]))));
     }
+    for x in arr(&f["xattrs"]) {
+        attrs.push(s(x).to_string());
+    }
     attrs_with_docs(out, &f["doc"], &attrs, st);
     out.push_str(&format!("{}fn {}(", vis(&f["vis"]), s(&f["name"])));
     let args: Vec<String> = arr(&f["args"])
